@@ -220,3 +220,37 @@ CHECKS = {
         ],
     },
 }
+
+# ---- ThreadSanitizer pass ---------------------------------------------------------------------------------------------
+# Every threaded harness of a property is run a second time in the tsan flavour (clang 14, library + hook layer
+# instrumented, harness monitors not) at a lower preemption bound: a data race in the library on any explored schedule is a
+# violation.  This is what sees a memory order weakened below what the algorithm needs when the interleaving itself stays
+# correct under sequential consistency.
+SEQUENTIAL = {"fut_closed", "fut_faults", "det_terminate", "fut_ops", "sch_tramp", "tim_unsafe", "tim_clockmath", "ksim_conf", "uring_conf",
+              "bulk_findif", "bulk_sched", "expr_d1", "expr_d2", "expr_cfault", "expr_known_lvss", "expr_ctx", "payload_adaptors", "traits_corpus",
+              "ctx_throwing_value", "strm_seq", "strm_sources", "coro_script", "coro_return_throws", "trace_chain", "any_storage", "any_unique_seq",
+              "any_object_seq", "any_object_nt_seq"}
+TSAN_EXES = {"stop", "cancel", "mutexh", "events", "scopes", "futures", "sched", "races", "timers", "strmrace", "cororace", "ioep", "iour"}
+
+
+def tsan_items(items, q=1, t=2):
+    out, seen = [], set()
+    for h in items:
+        if h["exe"] not in TSAN_EXES or h["harness"] in SEQUENTIAL or h.get("flavour") == "tsan":
+            continue
+        key = (h["exe"], h["harness"], tuple(h.get("args", [])))
+        if key in seen:
+            continue
+        seen.add(key)
+        d = dict(h)
+        d.update({"flavour": "tsan", "quick": min(h.get("quick", 2), q), "thorough": min(h.get("thorough", 3), t), "weight": 0.4})
+        d.pop("thorough_only", None)
+        out.append(d)
+    return out
+
+
+for _p, _spec in CHECKS.items():
+    if _p == "C20":
+        continue
+    _spec["harnesses"] = _spec["harnesses"] + tsan_items(_spec["harnesses"])
+
